@@ -61,8 +61,12 @@ def run(tier, seed):
         cap = 1 if kind == "sequence" else rng.choice([1, 2, 3, 5, 8])
         p = rng.choice([None, 0.0, 0.25, 0.5, 1.0]) if kind == "geometric" else None
         n = rng.choice([cap, cap + 1, 2 * cap + 3, 40 if quick else 200, 150 if quick else 600])
+        # a share of the reservoir runs draws legal but extreme outcomes (uniforms next to 0 and 1, first / last slot)
         traces.append(GS.record_run(kind, cap, rng.random() < 0.6, p, n, rng.randrange(2 ** 31),
-                                    pass_y_keyword=rng.random() < 0.3))
+                                    pass_y_keyword=rng.random() < 0.3, extreme=(kind in ("uniform", "geometric") and i % 2 == 0)))
+    for j in range(16 if quick else 160):      # dedicated runs of the two reservoirs under extreme (legal) outcomes
+        traces.append(GS.record_run(["uniform", "geometric"][j % 2], rng.choice([1, 2, 3]), rng.random() < 0.5,
+                                    rng.choice([None, 0.5]) if j % 2 else None, 60, rng.randrange(2 ** 31), extreme=True))
     fails, res = tracecheck.validate("Trace_Storages", traces, lambda t: len(t["ev"]), tag="c07tr")
     nev = sum(len(t["ev"]) for t in traces)
     ctx.add_tlc("trace validation Trace_Storages (seeded runs of the five classes)", res, kind="trace_validation",
